@@ -4,7 +4,7 @@ use super::*;
 use crate::context::Context;
 use crate::gc::Gc;
 use crate::static_wrapper::Static;
-use crate::collect_impl::verif_kani::{a, Rec, KeyP, H1};
+use crate::collect_impl::verif_kani::{a, same, Rec, KeyP, H1};
 type BH = core::hash::BuildHasherDefault<H1>;
 #[kani::proof]
 #[kani::unwind(6)]
@@ -15,7 +15,7 @@ fn k_collect_indexmap() {
         let mut m: IndexMap<KeyP, (Gc<'_, u8>, crate::GcWeak<'_, u8>), BH> = IndexMap::default();
         m.insert(KeyP(3, g[0]), (g[1], Gc::downgrade(g[2])));
         let mut r = Rec::new(); m.trace(&mut r);
-        assert!(r.ns == 2 && r.nw == 1 && r.s[0] == a(g[0]) && r.s[1] == a(g[1]) && r.w[0] == a(g[2]), "[trace] IndexMap: key, then value (strong and weak)");
+        assert!(same(&r, &[a(g[0]), a(g[1])], &[a(g[2])]), "[trace] IndexMap: key and value (strong and weak)");
         assert!(<IndexMap<u8, Gc<'_, u8>, BH> as Collect>::NEEDS_TRACE && <IndexMap<KeyP, u8, BH> as Collect>::NEEDS_TRACE
             && !<IndexMap<Static<u8>, u8, BH> as Collect>::NEEDS_TRACE, "[trace] IndexMap NEEDS_TRACE");
         core::mem::forget(m); core::mem::forget(cx);
